@@ -501,8 +501,7 @@ class C20(Prop):
         obs, recs = [], []
         classes: dict = {}
 
-        def state():
-            return " | ".join(show_snap(snap(g), classes) for g in w.pool)
+        last_after = None      # the snapshots taken after the previous line ARE the state before this one
 
         for line in case["lines"]:
             t = line.split()
@@ -521,7 +520,7 @@ class C20(Prop):
                 obs.append("ok")
                 recs.append(rec)
                 continue
-            before = [snap(g) for g in w.pool]
+            before = last_after if last_after is not None and len(last_after) == len(w.pool) else [snap(g) for g in w.pool]
             ncalls = len(w.calls)
             res = None
             try:
@@ -628,10 +627,10 @@ class C20(Prop):
                 rec["raised"] = type(e).__name__
             rec["res"] = res
             rec["before"] = before
-            rec["after"] = [snap(g) for g in w.pool]
+            rec["after"] = last_after = [snap(g) for g in w.pool]
             rec["calls"] = w.calls[ncalls:]
             recs.append(rec)
-            obs.append(res + " | " + state())
+            obs.append(res + " | " + " | ".join(show_snap(s_, classes) for s_ in last_after))
         return obs, recs
 
     def _parse(self, m, w, t):
